@@ -24,7 +24,7 @@ Open Scope Z_scope.
 
 Definition memZ (x : Z) (l : list Z) : bool := existsb (Z.eqb x) l.
 Definition is_nil {A} (l : list A) : bool := match l with [] => true | _ => false end.
-Definition sumZ (l : list Z) : Z := fold_right Z.add 0 l.
+Fixpoint sumZ (l : list Z) : Z := match l with [] => 0 | x :: t => x + sumZ t end.
 
 Fixpoint ins_by {A} (key : A -> Z) (x : A) (l : list A) : list A :=
   match l with
